@@ -209,7 +209,9 @@ class Ctx:
             else:
                 new_violations.append(v)
 
-        replay_dir = os.path.join(VERIF_ROOT, "replays", self.prop)
+        # (VF_REPLAY_DIR: used by tools/tryseed.sh so that runs against scratch copies do not mix their
+        # witnesses with those of /repo)
+        replay_dir = os.path.join(os.environ.get("VF_REPLAY_DIR") or os.path.join(VERIF_ROOT, "replays"), self.prop)
         for v in new_violations:
             os.makedirs(replay_dir, exist_ok=True)
             name = hashlib.sha1(v["key"].encode()).hexdigest()[:12] + ".json"
